@@ -53,3 +53,13 @@ pub assume_specification<T, E, F: FnOnce(T) -> bool> [Result::<T, E>::is_ok_and]
     requires a matches Ok(v) ==> f.requires((v,)),
     ensures a matches Ok(v) ==> f.ensures((v,), r), a.is_err() ==> !r;
 """
+
+# needs #![feature(allocator_api)] in the unit's crate_attrs
+STD_VEC_DEDUP = r"""
+// A1: Vec::dedup_by_key removes consecutive elements with equal keys: what is left is no longer than before (which elements stay is not
+// specified here; a vector of at most one element is unchanged)
+pub assume_specification<T, A: core::alloc::Allocator, F: FnMut(&mut T) -> K, K: PartialEq> [Vec::<T, A>::dedup_by_key] (v: &mut Vec<T, A>, key: F)
+    ensures final(v)@.len() <= old(v)@.len(), old(v)@.len() <= 1 ==> final(v)@ == old(v)@;
+pub assume_specification<T: PartialEq, A: core::alloc::Allocator> [Vec::<T, A>::dedup] (v: &mut Vec<T, A>)
+    ensures final(v)@.len() <= old(v)@.len(), old(v)@.len() <= 1 ==> final(v)@ == old(v)@;
+"""
